@@ -141,6 +141,33 @@ Proof.
     rewrite exec_disc_short by (unfold zlen in *; rewrite firstn_length; lia). eauto.
 Qed.
 
+(* ---- an interface statistics block cut short *)
+Lemma trunc_isb ro F g s ifid st i k :
+  r_big s = false -> 0 <= ifid < 4294967296 -> nth_error (r_ifaces s) (Z.to_nat ifid) = Some i ->
+  if_mask i <> 0 -> if_down i <> 0 -> (4 < F)%nat ->
+  (0 < k < length (enc_isb ifid st))%nat ->
+  exists s', exec (readPacketG ro F (S g)) s (firstn k (enc_isb ifid st)) = ((s', Err 2), []).
+Proof.
+  intros Hbig Hi Ei Hm Hd HF Hk. destruct (enc_isb_shape ifid st Hi) as (E & HL & Hz). cbv zeta in *.
+  set (L := zlen (opts_enc (isb_options st)) + 24) in *. rewrite E in *.
+  match type of E with _ = le_bytes 4 5 ++ le_bytes 4 L ++ ?b => set (body := b) in * end.
+  destruct (Nat.lt_ge_cases k 8) as [Hlt|Hge].
+  - apply rpg_short. rewrite zlen_firstn by lia. lia.
+  - rewrite (app_assoc (le_bytes 4 5)) in *. rewrite firstn_app_split by (rewrite app_length, !le_bytes_length; lia).
+    rewrite !app_length, !le_bytes_length in Hk. rewrite app_length, !le_bytes_length. rewrite <- app_assoc. cbn [Nat.add] in *.
+    destruct (exec_readISB F (set_block s false 5 (L - 8)) ifid st i []) as (sf & Efull & _); try assumption; try reflexivity; [sim; lia|].
+    cbv zeta in Efull. fold L in Efull. repeat rewrite <- app_assoc in Efull. rewrite app_nil_r in Efull.
+    assert (body = (le_bytes 4 ifid ++ enc_ts match ws_last st with Some t => t | None => 0 end ++ opts_enc (isb_options st) ++ le_bytes 4 L)) as Hbody
+      by (unfold body; repeat rewrite <- app_assoc; reflexivity).
+    rewrite <- Hbody in Efull.
+    assert (k - 8 < length body)%nat as Hkb by lia.
+    destruct (trunc_all (readISB F) _ body _ (k - 8)%nat (eof2_readISB F _) Efull Hkb) as (s' & Et).
+    exists s'. unfold readPacketG. rewrite exec_bind. cbn [readPacketHeader]. cbv zeta.
+    rewrite exec_bind, exec_readBlock_plain by (try assumption; try lia; unfold BT_SHB; lia). cbv iota beta.
+    rewrite exec_bind, exec_sget. cbv iota beta. sim. unfold BT_SHB. cbn [Z.eqb Pos.eqb orb].
+    rewrite exec_bind, Et. reflexivity.
+Qed.
+
 (* ---------------------------------------------------------------- scripts split in two *)
 Lemma ops_ok_app : forall a ws b, ops_ok ws (a ++ b) -> ops_ok ws a /\ ops_ok (ws_after ws a) b.
 Proof.
@@ -148,6 +175,7 @@ Proof.
   destruct op as [w|ifid ts caplen len data o|ifid st|ty pl]; cbn [app ops_ok ws_after] in *; try contradiction.
   - destruct H as (Hw & H). destruct (IH _ _ H). auto.
   - destruct H as (Hw & H). destruct (IH _ _ H). auto.
+  - destruct H as (H1 & H2 & H). destruct (IH _ _ H). auto.
   - destruct H as (H1 & H2 & H3 & H). destruct (IH _ _ H). auto.
 Qed.
 
@@ -199,12 +227,19 @@ Proof.
     intros s g (Hbig & Hifs) Hg. destruct g as [|g]; [lia|].
     destruct nxt as [w|ifid ts caplen len data o|ifid st|ty pl]; cbn [ops_ok enc_op] in *; try contradiction.
     - destruct Hoknxt as (Hw & _). destruct (trunc_idb ro F g s w (S k') Hbig Hw) as (s' & E); [pose proof (idb_options_len w); lia|lia|eauto].
-    - destruct Hoknxt as (Hwf & _). rewrite <- Hifs in Hwf.
+    - destruct Hoknxt as (Hwf & _). rewrite <- Hifs in Hwf. apply wf_packet_clear in Hwf.
       destruct (trunc_epb ro F g s ifid ts caplen len data o (S k') Hmix Hbig HFn Hwf) as (s' & E); [lia|eauto].
+    - destruct Hoknxt as (Hid & Hid2 & _).
+      assert (exists i, nth_error (r_ifaces s) (Z.to_nat ifid) = Some i) as (i & Ei).
+      { destruct (nth_error (r_ifaces s) (Z.to_nat ifid)) eqn:En; [eauto|]. apply nth_error_None in En.
+        assert (length (r_ifaces s) = length (ws_after [] pre)) by (rewrite <- (map_length clear_stats), Hifs, map_length; reflexivity).
+        unfold zlen in Hid. lia. }
+      destruct (sinv_link _ s ifid i Hifs Ei) as (_ & Hm & Hd).
+      destruct (trunc_isb ro F g s ifid st i (S k') Hbig ltac:(lia) Ei ltac:(rewrite Hm; unfold E9; lia) ltac:(rewrite Hd; lia) ltac:(lia)) as (s' & E); [lia|eauto].
     - destruct Hoknxt as (_ & Hty & Hpl & _). destruct (trunc_dsb ro F g s ty pl (S k') Hbig Hty Hpl) as (s' & E); [lia|eauto]. }
   assert (length pre < F)%nat as HlFp by lia.
   destruct (read_all_script ro F _ _ _ Hmix Htail (length pre) pre [] s0 [] F
-              (le_n _) HlFp HlFp (conj Q1 Q2) Hokpre (conj HF12 HFpre) eq_refl) as (s' & l' & E).
+              (le_n _) HlFp HlFp (conj Q1 (f_equal (map clear_stats) Q2)) Hokpre (conj HF12 HFpre) eq_refl) as (s' & l' & E).
   rewrite E. cbn [fst snd run_d rev app]. repeat split; reflexivity.
 Qed.
 
